@@ -233,7 +233,7 @@ func (f *fprinter) node(n Node, level int) {
 	case "mcomment":
 		f.indent(level, "/* mc */")
 	case "raw":
-		f.indent(level, "<", RawElement(n.Name), ">", RawContents[n.Name], "</", RawElement(n.Name), ">")
+		f.indent(level, "<", RawElement(n.Name), RawAttrs(n.Name), ">", RawContents[n.Name], "</", RawElement(n.Name), ">")
 	case "doctype":
 		f.indent(level, "<!DOCTYPE html>")
 	}
